@@ -10,7 +10,7 @@ struct cfg {
   char name[160];
   int nstart;
   int k;            /* messages in the script */
-  char types[8];    /* 'C' / 'N' per message */
+  char types[24];   /* 'C' / 'N' per message */
   int split;        /* second burst starts at this index (0 = single burst) */
   int bystander;    /* a CON on a second session of the same context */
   int peer_mode;    /* 0: ACK every CON, silent on NON; 1: verdicts are choice points incl. RST for NON */
@@ -20,7 +20,7 @@ struct cfg {
   int mid_wrap;     /* >0: the session's message id counter starts this many steps before it wraps to 0 */
 };
 
-#define MAXM 8
+#define MAXM 24
 struct msg {
   int submitted, accepted, is_con;
   int mid;
@@ -424,6 +424,26 @@ main(int argc, char **argv) {
           }
         }
       }
+  /* long bursts (the statement's 1..20) and NSTART 4: all Confirmable, alternating, and a NON after every third CON */
+  for (int ns = 1; ns <= 4; ns++)
+    for (int ki = 0; ki < 3; ki++)
+      for (int pat = 0; pat < 3; pat++) {
+        int k = ki == 0 ? 8 : ki == 1 ? 13 : 20;
+        if (!T && k == 13)
+          continue;
+        struct cfg c = {.nstart = ns, .k = k, .split = pat == 2 ? 5 : 0, .bystander = 0, .peer_mode = pat == 1, .max_retx = 2, .bound = k == 8 && T ? 2 : 1};
+        for (int b = 0; b < k; b++)
+          c.types[b] = pat == 0 ? 'C' : pat == 1 ? (b & 1 ? 'N' : 'C') : (b % 4 == 3 ? 'N' : 'C');
+        add(c);
+      }
+  /* NSTART 4 with the short bursts that can exceed it */
+  for (int v = 0; v < 8; v++) {
+    struct cfg c = {.nstart = 4, .k = 6, .split = v & 4 ? 3 : 0, .bystander = 0, .peer_mode = v & 1, .max_retx = 2, .bound = T ? 2 : 1};
+    memset(c.types, 'C', 6);
+    if (v & 2)
+      c.types[4] = 'N';
+    add(c);
+  }
   /* the message id counter wraps inside the burst: every position of the message that gets id 0x0000 (in flight, held) */
   for (int ns = 1; ns <= 2; ns++)
     for (int w = 1; w <= 4; w++) {
@@ -443,7 +463,7 @@ main(int argc, char **argv) {
       }
   vx_ev_rule("executions of a real libcoap client session against a raw peer that ACKs / RSTs only what it received; enumerated: NSTART 1..3 x "
              "all CON/NON type vectors of bursts of 1..4 (thorough 5) messages x one or two bursts x bystander session (also with the same message ids as the main session), and all schedules with "
-             "<= bound deviations (drop / duplicate / reorder of any datagram, timer before delivery, peer verdict RST or silence for CON, RST for NON), plus bursts inside which the message id counter wraps to 0 and bursts whose first Confirmable loses every copy and is given up while later ones are held; "
+             "<= bound deviations (drop / duplicate / reorder of any datagram, timer before delivery, peer verdict RST or silence for CON, RST for NON), plus long bursts of 8 / 13 / 20 messages (all CON, alternating CON/NON, a NON after every third CON) and bursts of 6 with NSTART 1..4 under <= 1 (2) deviations, bursts inside which the message id counter wraps to 0 and bursts whose first Confirmable loses every copy and is given up while later ones are held; "
              "non-trivial = deviation taken or retransmission; distinct = distinct observation logs");
   vx_ev_assumption("datagram (UDP) session; the 'before the session is established' clause is exercised with DTLS in the C19 harness");
   for (int i = 0; i < ncfgs; i++)
